@@ -27,6 +27,10 @@ open HtmlVerif
 @[simp] theorem pyIter_list (xs : List PVal) : pyIter (.list xs) = .ok xs := rfl
 @[simp] theorem pyIter_tuple (xs : List PVal) : pyIter (.tuple xs) = .ok xs := rfl
 @[simp] theorem truthy_bool (b : Bool) : truthy (.bool b) = b := rfl
+/-- `if xs:` / `if not xs:` on a list (not a simp lemma by default: proofs that want it name it) -/
+theorem truthy_list (xs : List PVal) : truthy (.list xs) = !xs.isEmpty := rfl
+theorem truthy_tuple (xs : List PVal) : truthy (.tuple xs) = !xs.isEmpty := rfl
+theorem truthy_str (s : Str) : truthy (.str s) = !s.isEmpty := rfl
 @[simp] theorem pyStr_str (s : Str) : pyStr (.str s) = .ok (.str s) := rfl
 @[simp] theorem pyStr_html (s : Str) : pyStr (.html s) = .ok (.str s) := rfl
 @[simp] theorem mkHTML_str (s : Str) : mkHTML (.str s) = .ok (.html s) := rfl
